@@ -536,6 +536,17 @@ func (rpi RetentionPolicyInfo) Clone() *RetentionPolicyInfo {
 			other.MstVersions[k] = *mstv.clone()
 		}
 	}
+	if rpi.Subscriptions != nil {
+		// DropSubscription deletes in place (append(s[:i], s[i+1:]...) / s[:0]): a copy that shares
+		// the backing array - the snapshot being persisted - would see later commands
+		other.Subscriptions = make([]SubscriptionInfo, len(rpi.Subscriptions))
+		copy(other.Subscriptions, rpi.Subscriptions)
+	}
+	if rpi.DownSamplePolicyInfo != nil {
+		// DropDownSamplePolicy clears the fields of the shared object in place
+		info := *rpi.DownSamplePolicyInfo
+		other.DownSamplePolicyInfo = &info
+	}
 	return &other
 }
 
